@@ -99,6 +99,19 @@ def cases(tier, seed):
                                    "open": "handle", "keys": [list(p) for p in pairs[part:part + 100]]}
 
 
+    # indexes given as NumPy scalars of a narrow dtype at the top of its range (a matrix with more than 127 bins)
+    n = 130
+    for mode in ("symm", "square"):
+        px = sorted([i, j, 1 + (i * 7 + j) % 5] for i in range(n) for j in range(n)
+                    if (mode == "square" or i <= j) and (abs(i - j) < 2 or (i * 31 + j * 17) % 97 == 0))
+        ks = [{"kind": "scalar", "a": [127], "b": [], "np": "int8"}, {"kind": "scalar", "a": [-1], "b": [], "np": "int8"},
+              {"kind": "slice", "a": [-4], "b": [], "np": "int8"}, {"kind": "slice", "a": [120], "b": [127], "np": "int8"},
+              {"kind": "scalar", "a": [129], "b": [], "np": "uint8"}, {"kind": "slice", "a": [125], "b": [-1], "np": "int16"},
+              {"kind": "scalar", "a": [126], "b": [], "np": "int64"}]
+        yield "rq.slice", {"n": n, "mode": mode, "px": px, "chunk": 10 ** 7, "open": "handle",
+                           "keys": [[a, b] for a in ks for b in ks[:5]]}
+
+
 def nontrivial(drv, case, obs):
     return len(case["px"]) > 0
 
